@@ -12,4 +12,10 @@ func Register(m map[string]func(*Ctx)) {
 	m["C12"] = RunC12
 	m["C13"] = RunC13
 	m["C17"] = RunC17
+	m["C04"] = RunC04
+	m["C05"] = RunC05
+	m["C06"] = RunC06
+	m["C08"] = RunC08
+	m["C10"] = RunC10
+	m["C16"] = RunC16
 }
